@@ -116,6 +116,13 @@ def make_pool(rng: PlanRng):
         if kind == "array_nonuniform":
             steps = steps * rng.uniform(0.6, 1.4, n_dom - 1)
         x = sig(300.0 + np.concatenate([[0.0], np.cumsum(steps)]))
+        if rng.coin(0.3):
+            # wavelengths typed as integers (np.arange(300, 701, 5)): same meaning, other dtype;
+            # odd steps / gaps so that half-step end weights are not integers
+            gaps = np.asarray(rng.g.choice([1, 3, 5, 5, 10], n_dom - 1), dtype=np.int64) \
+                if kind == "array_nonuniform" else \
+                np.full(n_dom - 1, int(rng.choice([1, 5, 3])), dtype=np.int64)
+            x = np.concatenate([[300], 300 + np.cumsum(gaps)]).astype(np.int64)
         pool["DOM"] = x
         # a foreign domain overlapping the filter domain with another step
         n_fd = rng.integers(7, 16)
@@ -602,8 +609,8 @@ def random_query(rng: PlanRng, meta, solver_ok=True, slow_ok=True):
                                               "fraction": rng.coin(0.7),
                                               "at_l1": rng.choice([None, None, 1.0, 3.0]),
                                               "relative": rng.coin(0.8)}},
-        lambda: {"q": "gamut_l1_scaling", "a": {"B": B}},
-        lambda: {"q": "gamut_dist_scaling", "a": {"B": B, "neutral_point":
+        lambda: {"q": "gamut_l1_scaling", "a": {"B": B, "relative": rng.coin(0.65)}},
+        lambda: {"q": "gamut_dist_scaling", "a": {"B": B, "relative": rng.coin(0.8), "neutral_point":
                                                    rng.choice([None, "np0", "npin?", "npin?"])}},
         lambda: {"q": "gamut_dist_scaling", "a": {"B": "Bz", "neutral_point":
                                                    rng.choice([None, "np0", "npin?", "npin?"])}},
